@@ -15,7 +15,8 @@ from builtins import object
 import numpy as np
 
 from odl.discr import RectPartition
-from odl.tomo.util import is_inside_bounds, perpendicular_vector
+from odl.tomo.util import (
+    axis_rotation_matrix, is_inside_bounds, perpendicular_vector)
 from odl.tomo.util.utility import rotation_matrix_from_to
 from odl.util import array_str, indent, signature_string
 
@@ -963,7 +964,14 @@ class CylindricalDetector(Detector):
 
         initial_axes = np.array([[0, -1, 0], [0, 0, 1]])
         r1 = rotation_matrix_from_to(initial_axes[0], axes[0])
-        r2 = rotation_matrix_from_to(np.matmul(r1, initial_axes[1]), axes[1])
+        # The second rotation must keep `axes[0]` fixed, i.e., it is the
+        # rotation around `axes[0]` taking the image of the second initial
+        # axis to `axes[1]` (also if the two are opposite to each other)
+        ax0, ax1 = self.__axes
+        rot_ax1 = np.matmul(r1, initial_axes[1])
+        angle = np.arctan2(np.dot(np.cross(rot_ax1, ax1), ax0),
+                           np.dot(rot_ax1, ax1))
+        r2 = axis_rotation_matrix(ax0, angle)
         self.__rotation_matrix = np.matmul(r2, r1)
         self.__translation = (-self.__radius
                               * np.matmul(self.__rotation_matrix, (1, 0, 0)))
@@ -1222,7 +1230,14 @@ class SphericalDetector(Detector):
 
         initial_axes = np.array([[0, -1, 0], [0, 0, 1]])
         r1 = rotation_matrix_from_to(initial_axes[0], axes[0])
-        r2 = rotation_matrix_from_to(np.matmul(r1, initial_axes[1]), axes[1])
+        # The second rotation must keep `axes[0]` fixed, i.e., it is the
+        # rotation around `axes[0]` taking the image of the second initial
+        # axis to `axes[1]` (also if the two are opposite to each other)
+        ax0, ax1 = self.__axes
+        rot_ax1 = np.matmul(r1, initial_axes[1])
+        angle = np.arctan2(np.dot(np.cross(rot_ax1, ax1), ax0),
+                           np.dot(rot_ax1, ax1))
+        r2 = axis_rotation_matrix(ax0, angle)
         self.__rotation_matrix = np.matmul(r2, r1)
         self.__translation = (- self.__radius
                               * np.matmul(self.__rotation_matrix, (1, 0, 0)))
